@@ -53,6 +53,17 @@ def worker_init(ctx):
 def _setup(ctx, u):
     proto = T.PROTOS[u['proto']]
     creds = T.Creds(ctx, 'c10-%s-%d' % (u['proto'], int(u['mutual'])), 1)
+    if u['mutual']:
+        # the server trusts three roots: its CertificateRequest then names authorities the client never looks at, bytes
+        # that nothing but the transcript hash protects
+        from ..ref import x509 as X
+        from ..ref import sm2 as R
+        extra = []
+        for j in range(2):
+            o = X.priv_from_seed('c10-extra-root', u['proto'], j)
+            extra.append(X.make_cert('extra-root-%d' % j, R.pub(o), 'extra-root-%d' % j, o,
+                                     exts=[X.ext_basic_constraints(True), X.ext_key_usage(X.KU_KEY_CERT_SIGN | X.KU_CRL_SIGN)]))
+        creds.srv_trust = T.write_file(creds.dir + '/srv_trust3.pem', X.certs_pem([extra[0], creds.pki.root, extra[1]]))
     srv_ctx, cli_ctx = T.pair_ctx(ctx, creds, proto, u['mutual'])
     return proto, srv_ctx, cli_ctx
 
@@ -143,7 +154,11 @@ def u_flips(ctx, u):
             continue
         # handshake bytes: type 22 records, and for TLS 1.3 the encrypted flights (outer type 23) too
         is_hs = rec[0] == T.REC_HANDSHAKE or (proto == T.TLS13 and rec[0] == T.REC_APPDATA)
-        if u['per_record']:
+        if u['per_record'] and rec[0] == T.REC_HANDSHAKE:
+            # plaintext handshake messages: every byte (one bit each) - bytes the receiving parser ignores are protected
+            # by the transcript hash alone, and sampling would have to hit them by chance
+            offs = list(range(n))
+        elif u['per_record']:
             k = u['per_record'] * u['nslices']
             offs = sorted(set([0, 1, 3, 4, n - 1] + [rng.randrange(n) for _ in range(k)]))
         else:
